@@ -72,10 +72,12 @@ package db
 
 //@ func (byteString).MarshalText(b) (out, err)
 //@   ensures [C03,C18 text.marshal] err == nil && bytes(out) == b64enc(str(b))
+//@   at call EncodeToString: assert [C03,C18 text.standard-alphabet-out] arg_enc == base64.StdEncoding
 //@ func (*byteString).UnmarshalText(b, text) (err)
 //@   requires b != nil
 //@   ensures [C03,C18 text.unmarshal] (err == nil) == b64ok(bytes(text))
-//@   ensures [C03,C18 text.inverse] err == nil ==> str(*b) == b64dec(bytes(text))
+//@   ensures [C03,C04,C18 text.inverse] err == nil ==> str(*b) == b64dec(bytes(text))
+//@   at call DecodeString: assert [C03,C18 text.standard-alphabet-in] arg_enc == base64.StdEncoding
 
 //@ func (*kv).save(kv) (err)
 //@   requires kv != nil && allocated(kv) && kv.dekCipher != nil && !isKEK(kv.dekCipher) && kv.secrets != nil && (forall n string :: has(kv.secrets, n) ==> kv.secrets[n] != nil)
@@ -222,6 +224,7 @@ package db
 //@   ensures [C03,C05 dbopen.readonly] old(diskHas(disk, path)) ==> disk == old(disk)
 //@   ensures [C06 dbopen.needs-audit-log] auditLog == nil ==> (err != nil && ret == nil && disk == old(disk))
 //@   ensures [C04 dbopen.fail-no-db] err != nil ==> ret == nil
+//@   ensures [C03,C04 dbopen.fails-only-when-loading-fails] (err != nil && auditLog != nil) ==> (defined(call_openOrCreateKV_1) && call_openOrCreateKV_1 != nil)
 
 //@ func (*DB).checkAndLog(db, caller, action, secret, secretVersion) (err)
 //@   requires db != nil && db.auditLog != nil && db.auditLog.enc != nil
